@@ -18,10 +18,10 @@ ASSUMPTIONS = [
     'in existence at a call is below the callee\'s entry watermark, everything a callee allocates lies between its entry and exit watermark',
     'A-heap: tensor trains stored in trajectory lists are described by uninterpreted functions of their identity (vt/e1/heap.py); the '
     'bound axioms H_top/H_bot are consistent by construction (finite id sets) but not proved inside z3',
-    'L-cumsum-mono: cumulative sums of positive integers are strictly increasing (assumed in the qtt2tt contract; needs induction)',
+    'L-cumsum-mono: cumulative sums of positive integers are strictly increasing (assumed by z3 in the qtt2tt contract; proved in Lean 4 + Mathlib, lemmas/ProdLemmas.lean, re-checked by the C06 run)',
     'L-prod-pos / L-prod-front / L-prod-split: a product of positive integers is positive; prod(l[a:b]) = l[a] * prod(l[a+1:b]); '
-    'prod(l[0:n]) = prod(l[0:k]) * prod(l[k:n]) (assumed for the uninterpreted slice products; each needs induction over the slice)',
-    'L-prod-interleave: prod(p) = prod(p[0::2]) * prod(p[1::2]) for a list of even length (assumed for the final reshape of TT.full; needs induction)',
+    'prod(l[0:n]) = prod(l[0:k]) * prod(l[k:n]) (assumed by z3 for the uninterpreted slice products; each proved in Lean 4 + Mathlib, lemmas/ProdLemmas.lean, re-checked by the C06 run - trusted: the correspondence of the Lean statements with the z3 encoding)',
+    'L-prod-interleave: prod(p) = prod(p[0::2]) * prod(p[1::2]) for a list of even length (assumed by z3 for the final reshape of TT.full; proved in Lean, lemmas/ProdLemmas.lean)',
     'A-vacuity: where z3 cannot build a model of a quantified path condition the vacuity guard degrades to "no contradiction derivable '
     'within the obligation budget" (counted in coverage.e1_vacuity_inconclusive)',
     'A-engine: the VC generator vt/e1 itself (mitigated by canary obligations that must be refuted on every run and '
